@@ -24,6 +24,38 @@ def strip_neg(t, count):
     return tuple(strip_neg(x, count) if isinstance(x, tuple) else x for x in t)
 
 
+def is_mode_negation(t):
+    """negate_mode(cfg) or mode(cfg, <something computed by RoundMode::negate>)"""
+    if not (isinstance(t, tuple) and t and t[0] == "call" and "SpanRound" in t[1]):
+        return False
+    if t[1].endswith("::negate_mode"):
+        return True
+    return t[1].endswith("::mode") and len(t[2]) > 1 and any(is_call(y, "RoundMode::negate") for y in walk(t[2][1]))
+
+
+def normal_form(t, cnt):
+    """strip Span negations (cnt['neg']), mode negations (cnt['mode']), `?` and Ok(..) wrappers; drop error alternatives"""
+    if not isinstance(t, tuple) or not t:
+        return t
+    if t[0] == "call" and t[1] == NEG:
+        cnt["neg"] += 1
+        return normal_form(t[2][0], cnt)
+    if is_mode_negation(t):
+        cnt["mode"] += 1
+        return normal_form(t[2][0], cnt)
+    if t[0] == "try":
+        return normal_form(t[1], cnt)
+    if t[0] == "agg" and t[2] == "Ok":
+        return normal_form(dict(t[3])["0"], cnt)
+    if t[0] == "phi":
+        return ("phi", frozenset(normal_form(x, cnt) for x in t[1] if x[0] != "residual"))
+    if t[0] == "agg":
+        return ("agg", t[1], t[2], tuple((n, normal_form(x, cnt)) for n, x in t[3]))
+    if t[0] == "call":
+        return ("call", t[1], tuple(normal_form(x, cnt) for x in t[2]))
+    return tuple(normal_form(x, cnt) if isinstance(x, tuple) else x for x in t)
+
+
 def run(ctx, rep):
     run_dep(ctx, rep, "C07")
     prog = ctx.prog("Q")
@@ -34,22 +66,47 @@ def run(ctx, rep):
     roots += ["span::Span::to_duration", "span::Span::total", "span::Span::round", "span::Span::compare", "span::Span::checked_add"]
     run_e1(ctx, rep, lambda E: by_names(E, roots), min_roots=20, min_sites=300)
 
-    rep.rule("TWIN", "per datetime type, `since` is `until` with exactly the kernel result passed through one Span negation; "
+    rep.rule("TWIN", "per datetime type, `since` is `until` with exactly one Span negation on every non-error return: the two have "
+                     "the same returns once negations, `?`/Ok wrappers and the negation of the rounding mode are stripped; when "
+                     "the rounding is relative to a datetime, the span that is rounded is the kernel's (from self to other) and "
+                     "the negation is applied to the rounded result with the mode negated - rounding the negated span relative "
+                     "to self measures calendar units on the wrong side of self, and since is then not the negation of until; "
                      "duration_since is duration_until with the operands swapped")
     for ty, dur in TYPES.items():
         fu, fs = prog.jiff(ty + "::until"), prog.jiff(ty + "::since")
         tu, tsn = Terms(fu).returns(), Terms(fs).returns()
-        c = [0]
-        stripped = strip_neg(tsn, c)
-        cu = [0]
-        strip_neg(tu, cu)
-        n_alt = len([a for a in alts(tsn) if any(is_call(x, NEG) for x in walk(a))])
-        if stripped == tu and cu[0] == 0 and c[0] >= 1 and c[0] == n_alt:
-            rep.ok("TWIN", ty.split("::")[-1] + " until/since", how="since = until with %d negation(s), one per non-error return" % c[0])
+        name = ty.split("::")[-1]
+        cu, cs = {"neg": 0, "mode": 0}, {"neg": 0, "mode": 0}
+        nu, ns = normal_form(tu, cu), normal_form(tsn, cs)
+        good = [a for a in alts(tsn) if a[0] != "residual" and not (a[0] == "agg" and a[2] == "Err")]
+        per_alt = []
+        for a in good:
+            c = {"neg": 0, "mode": 0}
+            normal_form(a, c)
+            per_alt.append(c["neg"])
+        if set(alts(nu)) == set(alts(ns)) and cu["neg"] == 0 and cu["mode"] == 0 and per_alt and all(k == 1 for k in per_alt):
+            rep.ok("TWIN", name + " until/since", how="since = until with one negation on each of %d non-error returns" % len(per_alt))
         else:
-            rep.violation("TWIN", ty.split("::")[-1] + " until/since",
-                          "since is not the negation of until: negations in since=%d (returns using one: %d), in until=%d, "
-                          "terms equal after stripping: %s" % (c[0], n_alt, cu[0], stripped == tu), fs.loc())
+            rep.violation("TWIN", name + " until/since",
+                          "since is not the negation of until: negations per non-error return of since=%s, in until=%d, "
+                          "returns equal after stripping: %s" % (per_alt, cu["neg"], set(alts(nu)) == set(alts(ns))), fs.loc())
+        for x in [y for y in walk(tsn) if is_call(y, "span::Span::round")]:
+            span, cfg = x[2][0], x[2][1]
+            pre = any(is_call(y, NEG) for y in walk(span))
+            relative = any(y and y[0] == "call" and "SpanRound" in y[1] and y[1].endswith("::relative") for y in walk(cfg))
+            modeneg = any(is_mode_negation(y) for y in walk(cfg))
+            key = name + "::since rounding side"
+            if pre and relative:
+                rep.violation("TWIN", key, "the negated span is rounded relative to self: calendar units (month lengths, days of 23/25 "
+                              "hours) are measured going away from `other`, so since differs from the negation of until "
+                              "(2023-01-01 since/until 2023-06-16, months, half-expand: -5mo against 6mo)", fs.loc())
+            elif pre and modeneg:
+                rep.violation("TWIN", key, "the span is negated before rounding and the rounding mode is negated as well", fs.loc())
+            elif not pre and not modeneg:
+                rep.violation("TWIN", key, "the rounded span is negated afterwards but the rounding mode is not negated: ceil and floor "
+                              "(and their half- variants) then apply to the negation of the span returned", fs.loc())
+            else:
+                rep.ok("TWIN", key, how="negated before rounding, not relative" if pre else "rounded from self to other with the mode negated, then negated")
         du, ds = prog.jiff(ty + "::duration_until"), prog.jiff(ty + "::duration_since")
         a, b = Terms(du).returns(), Terms(ds).returns()
         ok = (a[0] == "call" and b[0] == "call" and a[1] == b[1] and a[1].endswith(dur) and len(a[2]) == 2
